@@ -216,8 +216,18 @@ func (e StdEng) Dot(x, y Tensor, opts ...FuncOpt) (retVal Tensor, err error) {
 			}
 			return New(FromScalar(ret)), nil
 		case b.IsMatrix():
-			b.T()
-			defer b.UT()
+			// vector x matrix is computed as Bᵀ·a. The transpose is taken on a private view of b:
+			// b itself (which may be shared, or already lazily transposed) is only read
+			var bv View
+			if bv, err = b.Slice(); err != nil {
+				return nil, errors.Wrapf(err, opFail, "Dot")
+			}
+			if b, err = getFloatDenseTensor(bv); err != nil {
+				return nil, errors.Wrapf(err, opFail, "Dot")
+			}
+			if err = b.T(); err != nil {
+				return nil, errors.Wrapf(err, opFail, "Dot")
+			}
 			switch {
 			case reuse != nil && incr != nil:
 				return b.MatVecMul(a, WithReuse(reuse), WithIncr(incr))
@@ -409,7 +419,7 @@ func (e StdEng) MatVecMul(a, b, prealloc Tensor) (err error) {
 	n := ad.oshape()[1]
 
 	tA := blas.NoTrans
-	do := a.DataOrder()
+	do := ad.DataOrder()
 	z := ad.oldAP().IsZero()
 
 	var lda int
@@ -477,8 +487,8 @@ func (e StdEng) MatMul(a, b, prealloc Tensor) (err error) {
 		return errors.Wrapf(err, opFail, "StdEng.MatMul")
 	}
 
-	ado := a.DataOrder()
-	bdo := b.DataOrder()
+	ado := ad.DataOrder()
+	bdo := bd.DataOrder()
 	cdo := prealloc.DataOrder()
 
 	// get result shapes. k is the shared dimension
@@ -717,7 +727,20 @@ func (e StdEng) checkTwoFloatComplexTensors(a, b Tensor) (ad, bd DenseTensor, er
 	if bd, err = getFloatComplexDenseTensor(b); err != nil {
 		return nil, nil, errors.Wrap(err, "checkTwoTensors expects b to be be a DenseTensor")
 	}
+	ad, bd = blasOperand(ad), blasOperand(bd)
 	return
+}
+
+// blasOperand returns t itself when BLAS can read its storage through a leading dimension (and a transpose flag),
+// or a contiguous copy when t is a view whose elements are not laid out that way: a slice with gaps, a stepped slice,
+// a slice of a lazily transposed tensor. Without this the products are computed from the wrong storage.
+func blasOperand(t DenseTensor) DenseTensor {
+	if d, ok := t.(*Dense); ok && d.viewOf != 0 && d.RequiresIterator() {
+		if m, ok := d.Materialize().(DenseTensor); ok {
+			return m
+		}
+	}
+	return t
 }
 
 func (e StdEng) checkThreeFloatComplexTensors(a, b, ret Tensor) (ad, bd, retVal DenseTensor, err error) {
@@ -744,5 +767,6 @@ func (e StdEng) checkThreeFloatComplexTensors(a, b, ret Tensor) (ad, bd, retVal 
 	if retVal, err = getFloatComplexDenseTensor(ret); err != nil {
 		return nil, nil, nil, errors.Wrap(err, "checkTwoTensors expects retVal to be be a DenseTensor")
 	}
+	ad, bd = blasOperand(ad), blasOperand(bd)
 	return
 }
